@@ -20,7 +20,7 @@ RULE = (
     "core has >= 1 non-zero exit code; 'evaluations' counts families, counters.variant_runs counts submissions; "
     "distinct by hash of the family"
 )
-RULE += " Later additions (DESIGN.md 9): " + 'HPC variants also get up to 2 operator commands at generated steps, one bound to the end of a batch and held back between two lock holds, and up to 2 unusual-SLURM-state windows.'
+RULE += " Later additions (DESIGN.md 9): " + 'HPC variants also get up to 2 operator commands at generated steps, one bound to the end of a batch and held back between two lock holds, and up to 2 unusual-SLURM-state windows; a third of the HPC variants use multi-node batches (nodes 2-3).'
 ASSUMPTIONS = C.WORLD_ASSUMPTIONS
 setup, teardown = C.setup, C.teardown
 
@@ -51,6 +51,9 @@ def families(draw):
             # (SUSPENDED, REQUEUED, RESIZING, ...): the batch is still alive and its jobs will get results
             "exotic": draw(st.lists(st.fixed_dictionaries({"at": st.integers(10, 300), "steps": st.integers(20, 200),
                                                            "which": st.integers(0, 7)}), max_size=2)) if mode == "hpc" else [],
+            # a fifth of the HPC variants use multi-node batches (#SBATCH --nodes=2/3): every node runs the batch's commands and
+            # its own try-submit-jobs, node 0 records the results -- the outcome must not depend on it
+            "nodes": draw(st.sampled_from([1, 1, 1, 1, 2, 3])) if mode == "hpc" else 1,
         })
     return {"core": core, "variants": variants}
 
@@ -64,7 +67,7 @@ def variant_scenario(core, var):
     jobs = [dict(j, group=j["group"] % ng) for j in core]
     return {
         "jobs": jobs, "groups": var["groups"], "max_nodes": var["max_nodes"], "poll": 1, "reports": var["reports"],
-        "dry_run": False, "dsub": True, "mode": var["mode"],
+        "dry_run": False, "dsub": True, "mode": var["mode"], "nodes": var.get("nodes", 1),
         "hooks": {"setup": False, "teardown": False, "node_setup": False, "node_teardown": False},
     }
 
